@@ -2,7 +2,7 @@ SPECIFICATION C17Spec
 CONSTANTS
   Minerals = {a, b, c}
   Files = {f1, f2}
-  Postfixes = {"1", "10", "q"}
+  Postfixes <- PfFamily
   Configs <- C17Configs
   Seeds = {1, 2}
   Textures = {"random", "nonuniform"}
